@@ -1,1 +1,67 @@
-(* Props/C09.v -- stub, to be filled in *)
+(* Props/C09.v -- iterative solvers: degenerate starts.  Property theorems only.
+   The CONVERGENCE half of C09 (Ok within O(n) iterations on SPD / strictly diagonally dominant systems,
+   agreement with the direct solution) is NOT proved here or anywhere: it is a statement about
+   floating-point Krylov iterations and is covered by the failing-input search of driver/c09.py only
+   (which found the Krylov-breakdown class recorded in KNOWN_FINDINGS.txt / findings/C09-krylov-breakdown.md).
+   The pre-repair BiCG and its refutation witness are in Legacy/C09Refuted.v (bicg_legacy_refuted). *)
+From Coq Require Import List Arith ZArith.
+From OV Require Import Base.Panic Base.Arith Model.Vector Model.Matrix Model.Sparse Model.Iter Inst.QcInst
+  Proofs.Iter Proofs.IterField Proofs.IterInst.
+Import ListNotations.
+
+(* Over any field, with any function sqrt such that sqrt 0 = 0 (and |0| = 0), any matrix given by a
+   linear product, any size n, any budget, any tolerance with 0 <= tol, every solver (BiCG with either
+   error measure; after the repair d2fe329): a guess whose residual b - A x0 is the zero vector is
+   accepted at once -- Ok 0 -- and x0 is returned untouched.  This is exact_guess_ok0_{cg,bicg,bicgstab,qmr}
+   of DESIGN Appendix E as one statement over the solver tag. *)
+Theorem exact_guess_ok0 : forall (A : SArith), FieldLaws (SA A) -> SqrtLaws A ->
+  forall n (mulA mulAT : list (T (SA A)) -> res (list (T (SA A)))) sv b x0 max tol ax,
+  LinOp n mulA -> (forall itol, sv = BiCG itol -> itol = 1 \/ itol = 2) ->
+  length b = n -> length x0 = n -> mulA x0 = Ok ax -> zipw sub b ax = repeat zero n ->
+  leb zero tol = true ->
+  exists g, run mulA mulAT n n sv b x0 max tol = Ok (IOk 0, x0, g).
+Proof. intros A FL SL n mulA mulAT sv b x0 max tol ax LO Hit Hb Hx Eax Er Htol. exact (run_exact_guess FL SL n mulA mulAT LO sv b x0 max tol ax Hit Hb Hx Eax Er Htol). Qed.
+Check exact_guess_ok0 : forall (A : SArith), FieldLaws (SA A) -> SqrtLaws A ->
+  forall n (mulA mulAT : list (T (SA A)) -> res (list (T (SA A)))) sv b x0 max tol ax,
+  LinOp n mulA -> (forall itol, sv = BiCG itol -> itol = 1 \/ itol = 2) ->
+  length b = n -> length x0 = n -> mulA x0 = Ok ax -> zipw sub b ax = repeat zero n ->
+  leb zero tol = true ->
+  exists g, run mulA mulAT n n sv b x0 max tol = Ok (IOk 0, x0, g).
+Print Assumptions exact_guess_ok0.
+
+(* zero right-hand side with a zero guess: Ok 0, x stays the zero vector *)
+Theorem zero_rhs_zero_guess_ok0 : forall (A : SArith), FieldLaws (SA A) -> SqrtLaws A ->
+  forall n (mulA mulAT : list (T (SA A)) -> res (list (T (SA A)))) sv max tol,
+  LinOp n mulA -> (forall itol, sv = BiCG itol -> itol = 1 \/ itol = 2) ->
+  leb zero tol = true ->
+  exists g, run mulA mulAT n n sv (repeat zero n) (repeat zero n) max tol = Ok (IOk 0, repeat zero n, g).
+Proof. intros A FL SL n mulA mulAT sv max tol LO Hit Htol. exact (run_zero_rhs_zero_guess FL SL n mulA mulAT LO sv max tol Hit Htol). Qed.
+Check zero_rhs_zero_guess_ok0 : forall (A : SArith), FieldLaws (SA A) -> SqrtLaws A ->
+  forall n (mulA mulAT : list (T (SA A)) -> res (list (T (SA A)))) sv max tol,
+  LinOp n mulA -> (forall itol, sv = BiCG itol -> itol = 1 \/ itol = 2) ->
+  leb zero tol = true ->
+  exists g, run mulA mulAT n n sv (repeat zero n) (repeat zero n) max tol = Ok (IOk 0, repeat zero n, g).
+Print Assumptions zero_rhs_zero_guess_ok0.
+
+(* a zero budget never touches x (any arithmetic; also part of C08) -- "never corrupt a correct x" *)
+Theorem zero_budget_keeps_x : forall (A : SArith) (mulA mulAT : list (T (SA A)) -> res (list (T (SA A)))) rows cols
+    sv b x0 tol o x g,
+  run mulA mulAT rows cols sv b x0 0 tol = Ok (o, x, g) -> x = x0.
+Proof. intros A mulA mulAT rows cols sv b x0 tol o x g H. exact (run_zero_budget mulA mulAT rows cols sv b x0 tol o x g H). Qed.
+Check zero_budget_keeps_x : forall (A : SArith) (mulA mulAT : list (T (SA A)) -> res (list (T (SA A)))) rows cols
+    sv b x0 tol o x g,
+  run mulA mulAT rows cols sv b x0 0 tol = Ok (o, x, g) -> x = x0.
+Print Assumptions zero_budget_keeps_x.
+
+(* non-vacuity: Qc (AQ_FieldLaws, SAQ_SqrtLaws), the CSC matrix [[4,1],[1,3]] (exq_lin), the guess
+   x0 = (1/11, 7/11) and b := A x0 (= (1,2)): b - A x0 is the zero vector; tol = 0 is allowed *)
+Example exact_guess_ok0_nonvacuous :
+  LinOp 2 (@sp_mul AQ exq_s) /\ SqrtLaws SAQ /\
+  (exists b ax, @sp_mul AQ exq_s [q 1 11; q 7 11] = Ok ax /\ length b = 2 /\ @zipw AQ sub b ax = repeat zero 2) /\
+  @leb AQ zero zero = true.
+Proof.
+  split; [exact exq_lin|]. split; [exact SAQ_SqrtLaws|]. split; [|reflexivity].
+  rewrite exq_mul. match goal with |- exists b ax, Ok ?v = Ok ax /\ _ => exists v, v end.
+  split; [reflexivity|]. split; [reflexivity|].
+  exact (@zipw_sub_self SAQ AQ_FieldLaws _).
+Qed.
